@@ -15,7 +15,7 @@ use serde_json::{json, Value};
 use std::collections::HashSet;
 use std::sync::atomic::Ordering;
 
-type Msg = (Vec<u8>, Option<IpcSender<u32>>, Option<IpcSharedMemory>);
+type Msg = (Vec<u8>, Option<IpcSender<u32>>, Option<IpcSharedMemory>, Option<IpcReceiver<u32>>);
 
 #[derive(Clone, Copy, Debug, Serialize, Deserialize, PartialEq, Eq, Hash)]
 pub enum Who {
@@ -42,17 +42,24 @@ pub struct Case {
     pub held: Held,
 }
 
-fn mk(seq: u32, big: bool, attach: bool) -> Msg {
+/// the message, plus (when attachments are requested) the sender of the channel whose
+/// *receiver* travels in the message
+fn mk2(seq: u32, big: bool, attach: bool) -> (Msg, Option<IpcSender<u32>>) {
     let m = OsIpcSender::get_max_fragment_size();
     let len = if big { if m == usize::MAX { 10000 } else { 2 * m + 64 } } else { 48 };
     let d = payload(0, seq, len);
     if attach {
         let (t, r) = ipc::channel::<u32>().unwrap();
         drop(r);
-        (d, Some(t), Some(IpcSharedMemory::from_bytes(&[seq as u8; 700])))
+        let (t2, r2) = ipc::channel::<u32>().unwrap();
+        ((d, Some(t), Some(IpcSharedMemory::from_bytes(&[seq as u8; 700])), Some(r2)), Some(t2))
     } else {
-        (d, None, None)
+        ((d, None, None, None), None)
     }
+}
+
+fn mk(seq: u32, big: bool, attach: bool) -> Msg {
+    mk2(seq, big, attach).0
 }
 
 fn body(c: &Case) -> Result<(), String> {
@@ -135,8 +142,16 @@ fn body(c: &Case) -> Result<(), String> {
             break;
         }
         let (big, attach) = c.stream[i];
-        let r = tx.send(mk(i as u32, big, attach));
+        let (m, rx_owner) = mk2(i as u32, big, attach);
+        let r = tx.send(m);
         results.push(r.is_ok());
+        if let (Err(_), Some(t2)) = (&r, &rx_owner) {
+            // the receiver attached to the failed send was given away and delivered to nobody:
+            // it no longer exists anywhere, so sending to it must fail too
+            if t2.send(1).is_ok() && t2.send(2).is_ok() {
+                return Err(format!("send #{} failed, yet the receiver that was attached to it is still alive somewhere: sends to its channel keep succeeding", i));
+            }
+        }
         let after_drop = i >= c.drop_at && c.held != Held::TransitUnpacked;
         if after_drop && r.is_ok() {
             return Err(format!("send #{} ({}{}) was issued after the receiving end had vanished and reported success", i, if big { "3-packet" } else { "small" }, if attach { ", with attachments" } else { "" }));
@@ -149,7 +164,7 @@ fn body(c: &Case) -> Result<(), String> {
     if c.held == Held::TransitUnpacked {
         let r = unpacked.ok_or("receiver never unpacked")?;
         for i in 0..c.stream.len() {
-            let (d, s, reg) = r.recv().map_err(|e| format!("message #{} sent while the receiver was in transit was not delivered after unpacking: {:?}", i, e))?;
+            let (d, s, reg, _rx2) = r.recv().map_err(|e| format!("message #{} sent while the receiver was in transit was not delivered after unpacking: {:?}", i, e))?;
             let (_, seq) = validate(&d)?;
             if seq != i as u32 {
                 return Err(format!("after unpacking, message #{} arrived where #{} was expected", seq, i));
